@@ -32,3 +32,24 @@ func VerifConflictingVersion(constraint string, conflict *RepositoryPackage) (re
 func VerifSatisfies(dep int, actual, required Version) bool {
 	return versionDependency(dep).satisfies(actual, required)
 }
+
+// VerifFilterPackages calls filterPackages on candidates given with the pinned names of their indexes;
+// dq lists the disqualified candidates, installed may be nil. The answer is the indexes of the kept ones.
+func VerifFilterPackages(pkgs []*RepositoryPackage, pins []string, dq []int, allowPin, preferPin, version string, compare int, installed *RepositoryPackage) []int {
+	cands := make([]*repositoryPackage, len(pkgs))
+	at := map[*repositoryPackage]int{}
+	for i, p := range pkgs {
+		cands[i] = &repositoryPackage{p, pins[i]}
+		at[cands[i]] = i
+	}
+	dqm := map[*RepositoryPackage]string{}
+	for _, i := range dq {
+		dqm[pkgs[i]] = "verif"
+	}
+	kept := filterPackages(cands, dqm, withAllowPin(allowPin), withPreferPin(preferPin), withVersion(version, versionDependency(compare)), withInstalledPackage(installed))
+	out := make([]int, len(kept))
+	for i, k := range kept {
+		out[i] = at[k]
+	}
+	return out
+}
